@@ -80,6 +80,18 @@ def atan2_(x_num, y_num):
     return math.atan2(y_num, x_num)
 
 
+def _decimal(number):
+    """The number a float's shortest rendering spells, as a Decimal
+
+    numpy scalars (results of SLOPE, FORECAST...) render as 'np.float64(1.5)'
+    """
+    if isinstance(number, float):
+        number = float(number)
+    elif not isinstance(number, int):
+        number = int(number) if number == int(number) else float(number)
+    return Decimal(repr(number))
+
+
 def _multiple(number, significance, rounder):
     """significance * rounder(number / significance), calculated in decimal
 
@@ -87,9 +99,9 @@ def _multiple(number, significance, rounder):
     """
     with localcontext(_ROUND_CONTEXT):
         # enough digits for the quotient of any two floats
-        significance = Decimal(repr(significance))
+        significance = _decimal(significance)
         result = float(
-            significance * rounder(Decimal(repr(number)) / significance))
+            significance * rounder(_decimal(number) / significance))
     return NUM_ERROR if math.isinf(result) else result
 
 
@@ -251,7 +263,7 @@ def mod(number, divisor):
     # floating point remainder of -25 and -0.1 is -0.0999999999999986
     with localcontext(_ROUND_CONTEXT):
         # enough digits for the quotient of any two floats
-        number, divisor = Decimal(repr(number)), Decimal(repr(divisor))
+        number, divisor = _decimal(number), _decimal(divisor)
         return float(number - divisor * math.floor(number / divisor))
 
 
@@ -326,7 +338,7 @@ def _round(number, num_digits, rounding):
             number = float(number)
         except OverflowError:
             return NUM_ERROR
-    result = float(Decimal(repr(number)).quantize(
+    result = float(_decimal(number).quantize(
         quant, rounding=rounding, context=_ROUND_CONTEXT))
     return NUM_ERROR if math.isinf(result) else result
 
